@@ -55,6 +55,7 @@ func c06GenChecked(t *rapid.T, ver int) *world.Op {
 			op.Description = "custom"
 		}
 		op.Chart = c06GenChart(t, ver)
+		op.CtxCancelled = rapid.IntRange(0, 5).Draw(t, "contextCancelled") == 0
 		if kind == "template" {
 			// what `helm template` sets: DryRun, Replace, ClientOnly unless --validate
 			op.Kind = "install"
@@ -68,6 +69,7 @@ func c06GenChecked(t *rapid.T, ver int) *world.Op {
 		op.Atomic, op.CleanupOnFail, op.TakeOwnership, op.Force = b("atomic"), b("cleanup"), b("takeOwnership"), b("force")
 		op.SkipCRDs, op.PostRender, op.WaitForJobs, op.HideSecret, op.SubNotes = b("skipCRDs"), b("postRender"), b("waitForJobs"), b("hideSecret"), b("subNotes")
 		op.MaxHistory = rapid.SampledFrom([]int{0, 1, 2}).Draw(t, "maxHistory")
+		op.CtxCancelled = rapid.IntRange(0, 5).Draw(t, "contextCancelled") == 0
 		switch rapid.IntRange(0, 3).Draw(t, "valuesMode") {
 		case 1:
 			op.ResetValues = true
